@@ -79,6 +79,18 @@ def check_names(chk, cat):
                 chk.broken('%s(%s): engine sees outcomes %r over the casings, the real code accepts all tried casings' % (fn_name, n, outs))
             chk.violation('%s:name:%s' % (cat, 'rejected' if bad[1][0] != 'OK' else 'case-dependent'),
                           'documented name `%s` written as `%s`: %s' % (n, bad[0], bad[1]), {'job': 'strto', 'category': cat, 'name': bad[0], 'observed': bad[1]})
+    # (2a) a documented name selects ITS pattern (the pattern whose findings the report lists under that name's section; table of
+    #      reportlib, written from the documentation) -- two look-alike names selecting each other's pattern is still a bijection
+    expected = {name: variant for variant, name in rl.CATS[cat]['table']}
+    for n, v in sorted(variant_of.items()):
+        if n in expected and expected[n] != v:
+            nat = chk.native.run([['strto', cat, hexs(n)]])[0]
+            if nat[0] == 'OK' and nat[1] == expected[n]:
+                chk.broken('%s(%s): engine says it selects %s, the real code selects %s' % (fn_name, n, v, nat[1]))
+            chk.violation('%s:name:selects-another-pattern' % cat, 'the documented name `%s` selects the pattern %s; the pattern documented under that name is %s' % (n, nat[1] if nat[0] == 'OK' else nat, expected[n]),
+                          {'job': 'strto', 'category': cat, 'name': n, 'observed': nat, 'expected': expected[n]})
+        elif n in expected:
+            chk.ok()
     # (2) distinct documented names select distinct patterns
     inv = {}
     for n, v in variant_of.items():
